@@ -218,6 +218,10 @@ def run(ctx) -> None:
         return I.call_func(cl, [], {"debug": BoolV(False), "info": BoolV(True), "enable_log_to_file": BoolV(False),
                                     "enable_log_to_terminal": BoolV(True)}, None, None, None)
     for p in I.explore(thunk2):
-        lv = [I.expr_of(e.args[0]) for e in p.events if e.kind == "call_unknown" and e.target.endswith(".setLevel") and e.args]
-        ok = any("INFO" in x for x in lv) and not any("WARNING" in x or "ERROR" in x for x in lv)
+        last = {}
+        for e in p.events:
+            if e.kind == "call_unknown" and e.target.endswith(".setLevel") and e.args:
+                last[e.target[:-len(".setLevel")]] = I.expr_of(e.args[0])     # the level in force is the last one set on that object
+        lv = [f"{k.split('#')[0]}={v}" for k, v in last.items()]
+        ok = bool(last) and all("INFO" in v for v in last.values())
         ctx.check(ok, "C20.L4.info-enabled", "configure_logger", str(lv)[:120], "with the defaults the logger and the terminal handler are at INFO")
